@@ -132,6 +132,14 @@ def st_run_spec(draw, algo, source=None, K=None, conf=None, allow_Kgtm=True, m=N
     spec["source"] = source or draw(st.sampled_from(srcs))
     if spec["source"] == "stub":
         spec["stub"] = draw(st_stub(mm))
+        if ct == "rect":
+            # the algorithms' decisions depend on differences of objective values only: sometimes place the whole
+            # problem far from the origin (box comparisons are pure floating point, so the 1e-11 band still applies)
+            off = draw(st.sampled_from([0, 0, 0, 1000, 100000, 100000]))
+            if off:
+                sg = [draw(st.sampled_from([1, -1])) for _ in range(mm)]
+                spec["y_offset"] = [s_ * float(off) for s_ in sg]
+                spec["Y"] = [[float(y + o) for y, o in zip(row, spec["y_offset"])] for row in spec["Y"]]
     if spec["source"] == "fast":
         ls = draw(st.sampled_from([0.3, 0.6, 1.5]))
         os_ = draw(st.sampled_from([0.5, 1.0, 2.0]))
